@@ -29,7 +29,9 @@ def cell_inputs(c, rnd, full):
   xs = []
   for q in qs:
     base = q * step / 4.0
-    if c["cls"] == "sigmoid":
+    if c.get("sig") == "smooth":          # smooth sigmoid: p = 0.1875*x + 0.5 (tanh: 2p - 1)
+      base = ((base + 1.0) / 2.0 - 0.5) / 0.1875 if c["cls"] == "tanh" else (base - 0.5) / 0.1875
+    elif c["cls"] == "sigmoid":
       base = 2.0 * base - 1.0
     base *= al
     b = f32(base)
@@ -76,6 +78,15 @@ def main():
         call(q, f32([0.3, -0.7, 5.0]))
         q.bits = c["bits"]
         q.integer = c["int"]
+      elif c.get("hist") == "mode_after":
+        # the internal sigmoid is a global of the library that is read at call time: a quantizer built (and called)
+        # under the default mode has to follow a later set_internal_sigmoid()
+        q = make_fixed(c)
+        call(q, f32([0.3, -0.7, 5.0]))
+        Q.set_internal_sigmoid(c["sig"])
+      elif c.get("hist") == "mode_before":
+        Q.set_internal_sigmoid(c["sig"])
+        q = make_fixed(c)
       else:
         q = make_fixed(c)
       full = (tier == "thorough") or c["bits"] <= 5
@@ -87,7 +98,10 @@ def main():
       mn, mx = scalar(q.min()), scalar(q.max())
     except Exception as e:  # a configuration of the lattice must not raise
       errors.append({"k": "exc", "c": ci + 1, "exc": repr(e)[:300]})
+      Q.set_internal_sigmoid("hard")
       continue
+    finally:
+      pass
     dmn, dmx = dy(mn), dy(mx)
     for a, b, d in zip(x, y, yy):
       if not (np.isfinite(b) and np.isfinite(d)):
@@ -104,6 +118,9 @@ def main():
         events.append({"k": "range", "c": ci + 1, "vals": [dy(v) for v in r]})
     except AssertionError:
       pass                                  # documented: range() is defined for a subset of configurations
+    except Exception as e:                  # any other exception of the reporter is the library's, not the driver's
+      errors.append({"k": "range_raises", "c": ci + 1, "exc": repr(e)[:300]})
+    Q.set_internal_sigmoid("hard")
   json.dump(mine, open("%s.%d.cfg.json" % (prefix, shard), "w"))
   write_ndjson("%s.%d.ndjson" % (prefix, shard), events)
   json.dump(errors, open("%s.%d.err.json" % (prefix, shard), "w"))
